@@ -258,6 +258,12 @@ func runC06InWorker(c c06Case) error {
 				return nil
 			})
 		}
+		// whatever became of that input, the process is as good as before: two
+		// independent reads of a small valid file, the first record of the first read
+		// kept (its bank open) across the second, still deliver and keep what the file holds
+		if err := c06Canary(); err != nil {
+			return fmt.Errorf("after the %s input (%s) had been dealt with: %v", c.Entry, c.What, err)
+		}
 	case "body", "skip":
 		lib, err := avro.SchemaFromString(ref.Render(c.Schema, nil))
 		if err != nil {
@@ -318,6 +324,76 @@ func runC06InWorker(c c06Case) error {
 		return fmt.Errorf("VERIF-INCONCLUSIVE unknown entry %q", c.Entry)
 	}
 	return nil
+}
+
+type c06CanaryRow struct {
+	ID   int64    `json:"id"`
+	Name string   `json:"name"`
+	P    *int64   `json:"p"`
+	Tags []string `json:"tags"`
+}
+
+var c06CanaryFile []byte
+
+func c06Canary() error {
+	if c06CanaryFile == nil {
+		var buf bytes.Buffer
+		enc, err := avro.NewEncoderFor[c06CanaryRow](&buf, avro.CompressionNull, 40)
+		if err != nil {
+			return fmt.Errorf("VERIF-INCONCLUSIVE %v", err)
+		}
+		for i := 0; i < 4; i++ {
+			x := int64(900 + i)
+			if err := enc.Encode(&c06CanaryRow{ID: int64(i), Name: fmt.Sprintf("canary-%d-abcdefghijklmnop", i), P: &x, Tags: []string{"t", fmt.Sprint(i)}}); err != nil {
+				return fmt.Errorf("VERIF-INCONCLUSIVE %v", err)
+			}
+		}
+		if err := enc.Flush(); err != nil {
+			return fmt.Errorf("VERIF-INCONCLUSIVE %v", err)
+		}
+		c06CanaryFile = buf.Bytes()
+	}
+	check := func(r *c06CanaryRow, i int, when string) error {
+		if r.ID != int64(i) || r.Name != fmt.Sprintf("canary-%d-abcdefghijklmnop", i) || r.P == nil || *r.P != int64(900+i) || len(r.Tags) != 2 || r.Tags[1] != fmt.Sprint(i) {
+			return fmt.Errorf("a valid four-record file, %s: record %d is %+v", when, i, *r)
+		}
+		return nil
+	}
+	var kept c06CanaryRow
+	var keptBank *avro.ResourceBank
+	i := 0
+	if err := avro.ReadFile(bytes.NewReader(c06CanaryFile), c06CanaryRow{}, func(p unsafe.Pointer, rb *avro.ResourceBank) error {
+		r := (*c06CanaryRow)(p)
+		if err := check(r, i, "first read"); err != nil {
+			return err
+		}
+		if i == 0 {
+			kept, keptBank = *r, rb
+		} else {
+			rb.Close()
+		}
+		i++
+		return nil
+	}); err != nil {
+		return err
+	}
+	j := 0
+	if err := avro.ReadFile(bytes.NewReader(c06CanaryFile), c06CanaryRow{}, func(p unsafe.Pointer, rb *avro.ResourceBank) error {
+		if err := check((*c06CanaryRow)(p), j, "second read"); err != nil {
+			return err
+		}
+		j++
+		rb.Close()
+		return nil
+	}); err != nil {
+		return err
+	}
+	if i != 4 || j != 4 {
+		return fmt.Errorf("a valid four-record file delivered %d and %d records", i, j)
+	}
+	err := check(&kept, 0, "record kept (bank open) across an independent second read")
+	keptBank.Close()
+	return err
 }
 
 const c06Watchdog = 20 * time.Second
